@@ -16,7 +16,7 @@ TRUSTED = ["target strings (ids, partial ids, head(s), label@head, rev+N) are re
 ASSUME = ["history loads (acyclic, references present)", "current rows are revision ids of the history"]
 RULE = ("exhaustive: every acyclic history on <=4 revisions (none/down_revision/depends_on per earlier revision), identity and "
         "reversed load order, every antichain of revisions as current rows, targets {each id, heads, id+1, +1, +2}; "
-        "seeded random: histories of 5-10 revisions (merges, depends_on, redundant parents, branch labels) with rows reached by "
+        "labelled family: every acyclic history on <=3 (sampled for 4) revisions with a branch label on each revision in turn, every antichain state, requests {label@head, label@+1, label@+2, head}; seeded random: histories of 5-10 revisions (merges, depends_on, redundant parents, branch labels) with rows reached by "
         "random upgrade/downgrade/stamp commands of the real planner, targets incl. head, label@head, partial ids, rev+N. "
         "plus end-to-end runs (real script files, env.py, command.upgrade on SQLite: the plan is the order in which upgrade() functions actually ran; 40 quick / 1500 thorough). thorough adds all load orders for <=4 and 40x the random budget. non-trivial = non-empty plan; distinct by encoded case")
 EXHAUSTIVE = {"quick": True, "thorough": True}
@@ -35,15 +35,46 @@ LEVEL_NOTE = ("Trusted: Coq kernel/vm_compute, the hand model (tied by correspon
               "observed from the real code (verified under C16), hash-order of normalized dependencies is an observed oracle.")
 
 
-def _targets(g, m, rnd=None, rich=False):
+def _targets(g, m=None, rnd=None, rich=False):
+    """structured requests with the string alembic is given: [(struct, string)]"""
     names = [r["name"] for r in g]
-    ts = list(names) + ["heads", "+1", "+2"] + [n + "+1" for n in names]
+    labels = [l for r in g for l in r.get("labels", ())]
+    ts = [(("ids", [n]), n) for n in names] + [(("heads",), "heads"), (("relcur", 1), "+1"), (("relcur", 2), "+2")]
+    ts += [(("relid", n, 1), n + "+1") for n in names]
     if rich:
-        ts += ["head"] + [n[:-1] for n in names if len(n) > 4] + [n + "-1" for n in names] + [n + "+2" for n in names]
-        for r in g:
-            for l in r.get("labels", ()):
-                ts += [l + "@head", l + "@heads", l + "@+1"]
+        ts += [(("head",), "head")]
+        for n in names:      # partial ids: a prefix (>= 4 chars) that is a prefix of exactly this id and of no label
+            for k in range(4, len(n)):
+                p = n[:k]
+                if sum(1 for x in names + labels if x.startswith(p)) == 1:
+                    ts.append((("ids", [n]), p))
+                    break
+        ts += [(("other",), n + "-1") for n in names] + [(("relid", n, 2), n + "+2") for n in names]
+        for l in labels:
+            ts += [(("labelhead", l), l + "@head"), (("other",), l + "@heads"), (("labelrel", l, 1), l + "@+1"),
+                   (("labelrel", l, 2), l + "@+2")]
     return ts
+
+
+def _coq_tgt(struct, g):
+    ix = gr.index(g)
+    li = gr.label_index(g)
+    k = struct[0]
+    if k == "ids":
+        return "(TIds %s)" % cf.nlist(ix[n] for n in struct[1])
+    if k == "heads":
+        return "THeads"
+    if k == "head":
+        return "THead"
+    if k == "labelhead":
+        return "(TLabelHead %d)" % li[struct[1]]
+    if k == "relid":
+        return "(TRelId %d %d%%nat)" % (ix[struct[1]], struct[2])
+    if k == "relcur":
+        return "(TRelCur %d%%nat)" % struct[1]
+    if k == "labelrel":
+        return "(TLabelRel %d %d%%nat)" % (li[struct[1]], struct[2])
+    return "TOther"
 
 
 def generate(tier, seed):
@@ -56,8 +87,23 @@ def generate(tier, seed):
                 orders = [list(p) for p in itertools.permutations(g)]
             for go in orders:
                 for S in gr.antichains(go):
-                    for t in _targets(go, None):
-                        yield {"g": go, "S": S, "t": t}
+                    for st, t in _targets(go):
+                        yield {"g": go, "S": S, "t": t, "st": list(st)}
+    # labelled family: every acyclic history on 3 and (sampled) 4 revisions, a branch label on one revision (and sometimes
+    # a second one elsewhere), every antichain state, the label / head forms
+    for n in (2, 3, 4):
+        for g in gr.acyclic_graphs(n):
+            if n == 4 and tier == "quick" and rnd.random() > 0.12:
+                continue
+            for li in range(n):
+                g2 = [dict(r, labels=(["lab0"] if i == li else [])) for i, r in enumerate(g)]
+                if n > 2 and rnd.random() < 0.3:
+                    lj = rnd.choice([i for i in range(n) if i != li])
+                    g2[lj] = dict(g2[lj], labels=["lab1"])
+                for S in gr.antichains(g2):
+                    for st, t in _targets(g2, rich=True):
+                        if st[0] in ("labelhead", "labelrel", "head"):
+                            yield {"g": g2, "S": S, "t": t, "st": list(st)}
     nrand = 250 if tier == "quick" else 10000
     for k in range(nrand):
         g = gr.rand_dag(rnd, rnd.randint(5, 10), pdep=rnd.choice([0.2, 0.4]), pmerge=rnd.choice([0.2, 0.5]),
@@ -99,7 +145,7 @@ def _e2e(h):
         ix = gr.index(g2)
         ts = _targets(g2, m, rich=True)
         rnd.shuffle(ts)
-        for t in ts:
+        for st, t in ts:
             try:
                 tg = [ix[r.revision] for r in m._parse_upgrade_target(current_revisions=tuple(S), target=t, assert_relative_length=True)]
             except Exception:
@@ -111,7 +157,7 @@ def _e2e(h):
                 continue
             ran = [l.split()[1] for l in open(log).read().split("\n") if l.startswith("up ")]
             plan = [ix[x] for x in ran]
-            cin = "(%s, %s, %s)" % (gr.coq_graph(g2, m), cf.nlist(tg), cf.nlist(ix[s] for s in S))
+            cin = "(%s, %s, %s, %s)" % (gr.coq_graph(g2, m), _coq_tgt(tuple(st), g2), cf.nlist(tg), cf.nlist(ix[s] for s in S))
             return dict(cin=cin, cout="POk %s" % cf.nlist(plan), out={"plan": plan, "targets": tg, "S": S, "t": t, "e2e": True},
                         nontrivial=bool(plan), shape="e2e-n%d" % len(g))
         return None
@@ -126,7 +172,7 @@ def search(tier, seed):
         yield {"g": g, "rand_states": rnd.randint(0, 10 ** 9), "rich": True}
 
 
-def _one(g, m, sd, S, t):
+def _one(g, m, sd, S, t, st):
     from alembic import util
     from alembic.script.revision import RevisionError, RangeNotAncestorError, ResolutionError, MultipleHeads
     ix = gr.index(g)
@@ -156,9 +202,9 @@ def _one(g, m, sd, S, t):
         out, cout = {"err": "PEAssert"}, "PErr PEAssert"
     except Exception as e:
         out, cout = {"err": "PEOther:" + type(e).__name__}, "PErr PEOther"
-    cin = "(%s, %s, %s)" % (gr.coq_graph(g, m), cf.nlist(tg), cf.nlist(ix[s] for s in S))
-    return dict(cin=cin, cout=cout, out=dict(out, targets=tg), nontrivial=bool(out.get("plan")),
-                shape="n%d-%s" % (len(g), "plan" if "plan" in out else out["err"]))
+    cin = "(%s, %s, %s, %s)" % (gr.coq_graph(g, m), _coq_tgt(tuple(st), g), cf.nlist(tg), cf.nlist(ix[s] for s in S))
+    return dict(cin=cin, cout=cout, out=dict(out, targets=tg, request=t), nontrivial=bool(out.get("plan")),
+                shape="n%d-%s-%s" % (len(g), st[0], "plan" if "plan" in out else out["err"]))
 
 
 def run_case(h):
@@ -172,15 +218,14 @@ def run_case(h):
         S = rnd.choice(states)
         ts = _targets(g, m, rich=True)
         rnd.shuffle(ts)
-        for t in ts:
-            r = _one(g, m, sd, S, t)
+        ts.sort(key=lambda x: x[0][0] in ("ids",))      # prefer the symbolic / relative / labelled forms
+        for st, t in ts:
+            r = _one(g, m, sd, S, t, st)
             if r is not None:
                 r["out"]["S"] = S
-                r["out"]["t"] = t
                 return r
-        t = "heads"
-        return _one(g, m, sd, S, t)
-    return _one(g, m, sd, h["S"], h["t"])     # None (skipped) when the target string does not resolve
+        return None
+    return _one(g, m, sd, h["S"], h["t"], h["st"])     # None (skipped) when the target string does not resolve
 
 
 def classify(human, out):
